@@ -2,7 +2,7 @@
 run on (DESIGN.md 3.4 / 3.5).  Used by the AST-level properties (C02, C14, C17, C18, C19)."""
 import ast
 
-from .astx import C, N, attr, call, lam, sub
+from .astx import C, N, attr, call, clone, lam, sub
 from .refeval import Seq
 
 
